@@ -335,6 +335,12 @@ def build_real_box(spec):
         return urwid.Overlay(build_real(spec[1]), build_real_box(spec[2]), "center", ("relative", 60), "middle", "pack")
     if t == "boxattr":
         return urwid.AttrMap(build_real_box(spec[1]), "a", "f")
+    if t == "bargraph":
+        b = urwid.BarGraph(["bg", "a", "b"])
+        b.set_data([(1 + spec[1] % 3,), (3,), (2,)], 3)
+        return b
+    if t == "vscale":
+        return urwid.GraphVScale([(1, "a"), (3, "b")], 4 + spec[1] % 2)
     raise core.MachineryError("unknown box widget spec " + repr(t))
 
 
@@ -573,6 +579,19 @@ def mutate_real(w, a, b, size):
     if isinstance(w, urwid.Overlay):
         w.set_overlay_parameters(["left", "center", "right"][b % 3], ("relative", 40 + b % 50), "middle", "pack")
         return "Overlay.set_overlay_parameters"
+    if isinstance(w, urwid.BarGraph):
+        k = a % 3
+        if k == 0:
+            w.set_data([(1 + b % 3,), (b % 4,), (2,)], 3)
+            return "BarGraph.set_data"
+        if k == 1:
+            w.set_segment_attributes(["bg", ["a", "x"][b % 2], ["b", "y"][b // 2 % 2]])
+            return "BarGraph.set_segment_attributes"
+        w.set_bar_width([None, 1, 2][b % 3])
+        return "BarGraph.set_bar_width"
+    if isinstance(w, urwid.GraphVScale):
+        w.set_scale([(1 + b % 3, "z"), (2, "y")][: 1 + b % 2], 4)
+        return "GraphVScale.set_scale"
     if isinstance(w, urwid.Scrollable):
         w.set_scrollpos(b % 4)
         return "Scrollable.set_scrollpos"
@@ -621,6 +640,27 @@ def shim(names):
                             return None
                 return orig_store(cls, wcls, canvas)
             patch(CanvasCache, "store", classmethod(store))
+        if "listbox-set-focus-valign-no-invalidate" in names:
+            orig_sfv = urwid.ListBox.__dict__["set_focus_valign"]
+
+            def set_focus_valign(self, valign):
+                orig_sfv(self, valign)
+                self._invalidate()
+            patch(urwid.ListBox, "set_focus_valign", set_focus_valign)
+        if "graphvscale-set-scale-no-invalidate" in names:
+            orig_ss = urwid.GraphVScale.__dict__["set_scale"]
+
+            def set_scale(self, labels, top):
+                orig_ss(self, labels, top)
+                self._invalidate()
+            patch(urwid.GraphVScale, "set_scale", set_scale)
+        if "bargraph-set-segment-attributes-no-invalidate" in names:
+            orig_sa = urwid.BarGraph.__dict__["set_segment_attributes"]
+
+            def set_segment_attributes(self, attlist, hatt=None, satt=None):
+                orig_sa(self, attlist, hatt, satt)
+                self._invalidate()
+            patch(urwid.BarGraph, "set_segment_attributes", set_segment_attributes)
         if "pile-hidden-child" in names:
             pile_fn = urwid.Pile.render.original_fn
 
@@ -650,7 +690,8 @@ def shim(names):
 
 
 ROOT_CAUSES = [["edit-inherits-focus-blind-text-cache"], ["store-checks-widget-not-canvas"], ["pile-hidden-child"],
-               ["columns-hidden-child"]]
+               ["columns-hidden-child"], ["listbox-set-focus-valign-no-invalidate"],
+               ["graphvscale-set-scale-no-invalidate"], ["bargraph-set-segment-attributes-no-invalidate"]]
 
 
 def run_real(case):
@@ -744,6 +785,53 @@ class C06(core.Check):
     extract_v = "Extract/C06X.v"
     allowed_axioms = set()
     design_ref = "DESIGN.md section 5, C06"
+    technique = ("Coq theorems (invariant Fresh via DepsComplete, induction over operation histories) about a line-by-line "
+                 "model of CanvasCache and the render/rows wrappers with the widgets' render bodies left uninterpreted; "
+                 "extracted-model correspondence of the cache bookkeeping on real containers around spy leaves; end-to-end "
+                 "oracle (cached vs cache-emptied render) on random histories over the bundled widgets with a shrinker")
+    level_text = ("Proved in Coq for EVERY render function (an uninterpreted program that may ask for child renders and go on "
+                  "with what they return), every history of Render/Rows/Mutate/Collect/Clear and every fuel: every cached canvas "
+                  "equals the cache-less render under the current versions (fresh_invariant, via deps_complete), hence rendering "
+                  "with the cache = rendering with the cache emptied first (cache_invisible), a change is visible in the next "
+                  "render of every widget (change_visible), rows() through the cache = rows() without it given rows()/render "
+                  "consistency (rows_from_cache_ok), live canvases are never altered (finalized_never_mutated); fuel above the "
+                  "widget rank always suffices and CanvasCache.invalidate terminates within its fuel.  Premises: acyclic widget "
+                  "graph; a canvas depends only on its own version and the child canvases it keeps; every mutator calls "
+                  "_invalidate; every canvas cacheable.  REFUTED without the last premise (cache_invisible_full_refuted; the "
+                  "witness is replayed on the implementation and is a recorded finding).  Correspondence/oracle only: that the "
+                  "model is the code (exact comparison of _widgets/_deps keys and rendered stamps after every step on real "
+                  "AttrMap/Padding/Pile/Columns trees) and that the bundled widgets meet the premises (random histories through "
+                  "their public mutators, keypress/mouse_event and contents edits; 3 further recorded findings where they do not).")
+    level_note = ("Trusted: Coq kernel, ExtrOcamlBasic extraction + OCaml driver, the hand-written model of CanvasCache and the "
+                  "wrappers (validated by the correspondence, not proved against Python), CPython reference counting as the "
+                  "collector, the Python oracle.  The widgets' own layout caches (Text._cache_maxcol, ...) are covered by the "
+                  "oracle only.")
+    rule = ("bk cases = (tree of real AttrMap/Padding/Pile/Columns and a size-switching spy container over spy leaves, some "
+            "with ignore_focus or no_cache render; op list of render(widget,maxcol,focus,slot)/rows/mutate/drop slot/clear), "
+            "compared exactly with the extracted model after every op; real cases = (random tree of bundled widgets, op list of "
+            "render(size,focus,keep)/public mutation/gc/clear), judged by cached-vs-cache-emptied render.  non-trivial = a bk "
+            "case that had cached entries, a real case with >= 1 applied mutation and >= 1 compared render; distinct by hash "
+            "of (case, outcome)")
+    trusted_base = [
+        "Coq 8.16.1 kernel (coqc; vm_compute used only for the closed witness examples)",
+        "extraction: ExtrOcamlBasic only; Z/positive stay Coq datatypes; OCaml 4.13.1",
+        "tools/driver/driver.ml (int <-> Z conversion, line I/O)",
+        "hand-written Model/Cache.v: CanvasCache.store/fetch/invalidate/cleanup/clear, cache_widget_render/rows "
+        "(validated by the bookkeeping correspondence, not proved against Python)",
+        "table-driven instance in Model/Cache.v for which children a real AttrMap/Padding/Pile/Columns renders at which size/focus",
+        "CPython reference counting + weakref callbacks as the garbage collector of the model's Collect steps",
+        "Python oracle and widget generators in harness/props/c06.py",
+    ]
+    assumptions = [
+        "the widget graph is acyclic (a widget never displays itself)",
+        "a widget's canvas is a function of its own state, the render key and the canvases of the children it asked for, and it "
+        "keeps those canvases as children (depends_on = displayed widgets; the collector cannot free a displayed child)",
+        "every change of a widget's own state is followed by self._invalidate() (checked on the enumerated public mutators by "
+        "the oracle; an ast scan lists candidates that never reach _invalidate as warnings)",
+        "every canvas is cacheable and no class lists 'render' in no_cache (without this the theorem is refuted: finding)",
+        "rows_from_cache_ok additionally assumes rows() == render().rows() for every widget (property C11)",
+        "plain public attributes without a setter (Divider.top, BoxAdapter.height, Padding.left/right) are not mutators",
+    ]
 
     # ---------- implementation ----------
     def run_impl(self, case):
@@ -912,7 +1000,9 @@ class C06(core.Check):
             return ["pile", [flow(d - 1) for _ in range(rng.randint(1, 3))]]
 
         def box(d):
-            k = rng.randrange(8)
+            k = rng.randrange(9)
+            if k == 8:
+                return rng.choice([["bargraph", rng.randrange(3)], ["vscale", rng.randrange(2)]])
             if k <= 2 or d <= 0:
                 return ["listbox", rng.randrange(2), [flow(max(0, d - 1)) for _ in range(rng.randint(1, 4))]]
             if k == 3:
@@ -998,13 +1088,17 @@ class C06(core.Check):
 
     sig_seen: dict = {}
     in_shrink = False
+    shrink_target = None
 
     def shrink(self, case, msg):
         self.in_shrink = True
+        m = re.search(r"\[root cause: ([^\]]*)\]$", msg)
+        self.shrink_target = m.group(1) if m else None
         try:
             return super().shrink(case, msg)
         finally:
             self.in_shrink = False
+            self.shrink_target = None
 
     def judge(self, case, res):
         msgs = []
@@ -1045,6 +1139,8 @@ class C06(core.Check):
     def diagnose(self, case, judge):
         """Which recorded root cause explains the violation?  (the violation vanishes under that proposed patch)"""
         combos = ROOT_CAUSES + [sorted({n for c in ROOT_CAUSES for n in c})]
+        if self.shrink_target:      # while shrinking: try the root cause of the case being shrunk first
+            combos = [c for c in combos if "+".join(c) == self.shrink_target] + combos
         for names in combos:
             try:
                 with shim(names):
@@ -1164,6 +1260,129 @@ class C06(core.Check):
         for i, x in enumerate(t):
             if i and isinstance(x, int) and x > 0:
                 yield t[:i] + [0] + t[i + 1:]
+
+    # ---------- not case-shaped: ast scan for public mutators that never reach _invalidate ----------
+    SCAN = ["widget/text.py", "widget/edit.py", "widget/columns.py", "widget/pile.py", "widget/grid_flow.py", "widget/padding.py",
+            "widget/widget_decoration.py", "widget/attr_map.py", "widget/attr_wrap.py", "widget/listbox.py", "widget/frame.py",
+            "widget/filler.py", "widget/wimp.py", "widget/divider.py", "widget/box_adapter.py", "widget/line_box.py",
+            "widget/overlay.py", "widget/progress_bar.py", "widget/solid_fill.py", "widget/big_text.py", "widget/bar_graph.py",
+            "widget/scrollable.py", "widget/popup.py", "widget/widget.py", "widget/container.py"]
+
+    def extra_checks(self, tier, rng, ev):
+        classes = {}
+        for rel in self.SCAN:
+            path = os.path.join(core.REPO, "urwid", rel)
+            if not os.path.exists(path):
+                continue
+            tree = ast.parse(open(path).read())
+            for node in tree.body:
+                if isinstance(node, ast.ClassDef):
+                    classes[node.name] = node
+        info = {}
+        for cname, cnode in classes.items():
+            methods, setters, props = {}, {}, set()
+            for f in cnode.body:
+                if isinstance(f, ast.FunctionDef):
+                    decs = [ast.unparse(d) for d in f.decorator_list]
+                    if any(d.endswith(".setter") for d in decs):
+                        setters[f.name] = f
+                    elif "property" in decs:
+                        props.add(f.name)
+                    else:
+                        methods[f.name] = f
+                elif isinstance(f, ast.Assign) and isinstance(f.value, ast.Call) and getattr(f.value.func, "id", "") == "property":
+                    args = f.value.args
+                    for t in f.targets:
+                        if isinstance(t, ast.Name) and len(args) > 1 and isinstance(args[1], ast.Name):
+                            setters[t.id] = ("alias", args[1].id)
+            info[cname] = {"methods": methods, "setters": setters, "bases": [ast.unparse(b).split(".")[-1] for b in cnode.bases],
+                           "node": cnode}
+
+        def mro(c, seen=()):
+            out = [c]
+            for b in info.get(c, {}).get("bases", []):
+                if b in info and b not in seen:
+                    out += mro(b, seen + (c,))
+            return out
+
+        def lookup(c, name, kind):
+            for k in mro(c):
+                if name in info[k][kind]:
+                    return info[k][kind][name]
+            return None
+
+        def self_attr(n):
+            return isinstance(n, ast.Attribute) and isinstance(n.value, ast.Name) and n.value.id == "self"
+
+        def analyse(c, f, seen):
+            """(writes own state?, reaches _invalidate?)"""
+            if isinstance(f, tuple):
+                g = lookup(c, f[1], "methods")
+                return analyse(c, g, seen) if g is not None else (False, False)
+            key = (c, f.name, f.lineno)
+            if key in seen:
+                return False, False
+            seen = seen | {key}
+            writes = reaches = False
+            for n in ast.walk(f):
+                if isinstance(n, (ast.Assign, ast.AugAssign, ast.AnnAssign)):
+                    targets = n.targets if isinstance(n, ast.Assign) else [n.target]
+                    for t in targets:
+                        for tt in ast.walk(t):
+                            if self_attr(tt) and isinstance(tt.ctx, ast.Store):
+                                st = lookup(c, tt.attr, "setters")
+                                if tt.attr in ("contents", "_contents", "body", "_body"):
+                                    writes = reaches = True     # MonitoredList / walker callbacks invalidate
+                                elif st is not None:
+                                    w2, r2 = analyse(c, st, seen)
+                                    writes, reaches = writes or w2, reaches or r2
+                                elif not tt.attr.startswith("__"):
+                                    writes = True
+                if isinstance(n, ast.Call):
+                    fn = n.func
+                    name = ast.unparse(fn)
+                    if name.endswith("_invalidate") or name.endswith("CanvasCache.invalidate") or name.endswith("._modified"):
+                        reaches = True
+                    elif self_attr(fn):
+                        g = lookup(c, fn.attr, "methods")
+                        if g is not None:
+                            w2, r2 = analyse(c, g, seen)
+                            writes, reaches = writes or w2, reaches or r2
+                    elif isinstance(fn, ast.Attribute) and self_attr(fn.value) and fn.attr in (
+                            "append", "insert", "extend", "pop", "remove", "clear", "sort", "reverse", "set_focus", "update"):
+                        # a call on a contents list / walker held by the widget: those invalidate through callbacks
+                        reaches = reaches or fn.value.attr in ("contents", "_contents", "body", "_body", "cells")
+            return writes, reaches
+
+        dist = ev["dist"]
+        n_mut = n_warn = 0
+        OBSERVERS = {"render", "rows", "pack", "keypress", "mouse_event", "get_cursor_coords", "move_cursor_to_coords",
+                     "get_pref_col", "selectable", "sizing", "calculate_visible", "get_focus_offset_inset", "rows_max",
+                     "get_line_translation", "position_coords", "get_item_rows", "get_item_size", "get_rows_sizes",
+                     "get_column_sizes", "column_widths", "get_display_widget", "generate_display_widget", "options"}
+        widgetish = [c for c in info if any(k in ("Widget", "WidgetDecoration", "WidgetWrap", "WidgetContainerMixin")
+                                            for k in mro(c)[1:] + [c])]
+        for c in sorted(widgetish):
+            items = [(n, f) for n, f in info[c]["methods"].items() if not n.startswith("_") and n not in OBSERVERS]
+            items += [(n + " (setter)", f) for n, f in info[c]["setters"].items() if not n.startswith("_")]
+            for n, f in items:
+                writes, reaches = analyse(c, f, frozenset())
+                if writes:
+                    n_mut += 1
+                    if not reaches:
+                        n_warn += 1
+                        dist[f"ast-warning:public mutator never reaches _invalidate: {c}.{n}"] = 1
+            init = info[c]["methods"].get("__init__")
+            if init is not None:
+                for nn in ast.walk(init):
+                    if isinstance(nn, (ast.Assign, ast.AnnAssign)):
+                        for t in (nn.targets if isinstance(nn, ast.Assign) else [nn.target]):
+                            if self_attr(t) and not t.attr.startswith("_") and lookup(c, t.attr, "setters") is None \
+                                    and t.attr not in ("logger",):
+                                dist[f"ast-note:plain public attribute (assigning it is not a mutator): {c}.{t.attr}"] = 1
+        dist["ast:public mutators analysed"] = n_mut
+        dist["ast:warnings"] = n_warn
+        return []
 
 
 CHECK = C06
